@@ -15,137 +15,7 @@ const id = M.id
 
 TC.setProperty('C05')
 
-const NAMES = ['item', 'index', 'a', 'm', 'v', 'x']
-
-/** expression forms with the identifier under test at one child position */
-function forms() {
-  const o = id('o'); const k = id('k'); const f = id('fn'); const c1 = id('c1'); const c0 = id('c0')
-  return [
-    ['identifier', (n) => n],
-    ['array[0]', (n) => M.arr([n])],
-    ['array-after-1-hole', (n) => M.arr([{ hole: true }, n])],
-    ['array-after-2-holes', (n) => M.arr([{ hole: true }, { hole: true }, n])],
-    ['array-after-element-and-hole', (n) => M.arr([o, { hole: true }, n])],
-    ['array[1]', (n) => M.arr([o, n])],
-    ['array-spread', (n) => M.arr([{ spread: M.arr([n]) }])],
-    ['array-after-spread', (n) => M.arr([{ spread: M.arr([o]) }, n])],
-    ['call-argument-0', (n) => M.call(f, [n])],
-    ['call-argument-1', (n) => M.call(f, [o, n])],
-    ['call-callee', (n) => M.call(M.idx(M.arr([n]), M.lit('0')), [])],
-    ['object-value', (n) => M.obj([{ key: 'p', value: n }])],
-    ['object-second-value', (n) => M.obj([{ key: 'p', value: o }, { key: 'q', value: n }])],
-    ['object-spread', (n) => M.obj([{ spread: M.obj([{ key: 'p', value: n }]) }])],
-    ['object-after-spread', (n) => M.obj([{ spread: o }, { key: 'q', value: n }])],
-    ['dynamic-index', (n) => M.idx(M.obj([{ key: 'sentinel', value: M.lit("'hit'") }]), M.bin('&&', n, M.lit("'sentinel'")))],
-    ['index-object', (n) => M.idx(M.arr([n]), M.lit('0'))],
-    ['member-object', (n) => M.mem(M.obj([{ key: 'p', value: n }]), 'p')],
-    ['member-of-name', (n) => M.mem(n, 'length')],
-    ['cond-test', (n) => M.cond(n, M.lit("'yes'"), M.lit("'no'"))],
-    ['cond-true-branch', (n) => M.cond(c1, n, o)],
-    ['cond-false-branch', (n) => M.cond(c0, o, n)],
-    ['plus-left', (n) => M.bin('+', n, M.lit("'!'"))],
-    ['plus-right', (n) => M.bin('+', M.lit("'!'"), n)],
-    ['not', (n) => M.un('!', n)],
-    ['typeof', (n) => M.un('typeof', n)],
-    ['and-right', (n) => M.bin('&&', c1, n)],
-    ['or-right', (n) => M.bin('||', c0, n)],
-    ['nullish-left', (n) => M.bin('??', n, o)],
-    ['nullish-right', (n) => M.bin('??', id('nil'), n)],
-    ['strict-equal', (n) => M.bin('===', n, n)],
-    ['compare', (n) => M.bin('<', n, k)],
-    ['bitor', (n) => M.bin('|', n, M.lit('0'))],
-    ['parenthesised', (n) => M.grp(n)],
-    ['nested-array-object', (n) => M.arr([M.obj([{ key: 'p', value: M.arr([{ hole: true }, n]) }])])],
-  ]
-}
-
-const DATA = { item: 'D.item', index: 'D.index', a: 'D.a', m: 'D.m', v: 'D.v', x: 'D.x', y: 'D.y', o: 'D.o', k: 3, c1: 1, c0: 0, nil: null, fn: function fn() { return ['fn', ...arguments] }, list: ['L0', 'L1'], list2: ['M0'] }
-
-/** scope introducers: (body) -> nodes */
-function introducers() {
-  return [
-    ['for', (b) => [el('f', [], b, { wxFor: { list: E(id('list')) } })]],
-    ['for-renamed', (b) => [el('f', [], b, { wxFor: { list: E(id('list')), item: 'x', index: 'y' } })]],
-    ['for-item-named-index', (b) => [el('f', [], b, { wxFor: { list: E(id('list')), item: 'index' } })]],
-    ['for-item-shadows-data', (b) => [el('f', [], b, { wxFor: { list: E(id('list2')), item: 'a', index: 'v' } })]],
-    ['for-block', (b) => [block(b, { wxFor: { list: E(id('list2')), item: 'm' } })]],
-    ['slot-scope', (b) => [el('c', [], [el('d', [], b, { slotScopes: [['v', undefined]] })])]],
-    ['slot-scope-alias-item', (b) => [el('c', [], [el('d', [], b, { slotScopes: [['v', 'item']] })])]],
-    ['slot-scope-two', (b) => [el('c', [], [el('d', [], b, { slotScopes: [['a', undefined], ['v', 'x']] })])]],
-  ]
-}
-
-const probe = (e) => el('r', [A.plain('val', E(e))])
-const WXS_M = wxs('m', 'exports.k = "m.k"; exports.length = "m.length"')
-
-function corpus(depth) {
-  const out = []
-  const F = forms()
-  const I = introducers()
-  const push = (name, main) => out.push({ name, main, files: {}, scripts: {} })
-  const nestings = []
-  // depth 0: no introducer; then every nesting of introducers up to `depth`
-  nestings.push({ name: 'top', wrap: (b) => b })
-  let level = [{ name: '', wrap: (b) => b }]
-  for (let d = 1; d <= depth; d++) {
-    const next = []
-    for (const outer of level) for (const [iname, ifn] of I) next.push({ name: (outer.name ? outer.name + '>' : '') + iname, wrap: (b) => outer.wrap(ifn(b)) })
-    nestings.push(...next)
-    level = next
-  }
-  for (const nest of nestings) {
-    for (const [fname, ffn] of F) {
-      for (const nm of NAMES) {
-        const e = ffn(id(nm))
-        // with and without a file-level script module named m
-        push(`${nest.name}|${fname}|${nm}`, nest.wrap([probe(e)]))
-        if (nm === 'm' || fname === 'identifier') push(`wxs+${nest.name}|${fname}|${nm}`, [WXS_M, ...nest.wrap([probe(e)])])
-      }
-    }
-    // mixed text and template data positions
-    for (const nm of NAMES) {
-      push(`${nest.name}|mixed-text|${nm}`, nest.wrap([text('a', E(id(nm)), 'b')]))
-      push(`${nest.name}|template-data-value|${nm}`, [tdef('t', [probe(id('p'))]), ...nest.wrap([tis('t', M.obj([{ key: 'p', value: id(nm) }]))])])
-      push(`${nest.name}|template-data-shorthand|${nm}`, [tdef('t', [probe(id(nm))]), ...nest.wrap([tis('t', M.obj([{ short: nm }]))])])
-      push(`${nest.name}|for-list-expression|${nm}`, nest.wrap([el('g', [], [probe(id('q'))], { wxFor: { list: E(M.arr([id(nm)])), item: 'q', index: nm === 'index' ? 'qq' : undefined } })]))
-      push(`${nest.name}|for-own-attribute|${nm}`, nest.wrap([el('g', [A.plain('val', E(id(nm)))], [], { wxFor: { list: E(id('list2')) } })]))
-      push(`${nest.name}|wx-if-condition|${nm}`, nest.wrap([el('g', [], [text('T')], { wxIf: E(M.bin('===', id(nm), M.lit("'D." + nm + "'"))) }), el('h', [], [], { wxElse: true })]))
-      push(`${nest.name}|slot-element-own-attribute|${nm}`, nest.wrap([el('c', [], [el('d', [A.plain('val', E(id(nm)))], [], { slotScopes: [[nm === 'v' ? 'v' : 'zz', undefined]] })])]))
-    }
-  }
-  // non-leak placements
-  for (const [iname, ifn] of I) {
-    for (const nm of NAMES) {
-      push(`after:${iname}|sibling|${nm}`, [...ifn([probe(id(nm))]), probe(id(nm))])
-      push(`after:${iname}|following-text|${nm}`, [...ifn([text('in')]), text(E(id(nm)))])
-      push(`inside:${iname}|template-definition-body|${nm}`, [WXS_M, tdef('t', [probe(id(nm))]), ...ifn([tis('t', M.obj([{ key: 'zz', value: M.lit('1') }]))])])
-      push(`inside:${iname}|template-definition-written-inside|${nm}`, [...ifn([tdef('t', [probe(id(nm))]), tis('t')])])
-      push(`two:${iname}|second-sibling-scope|${nm}`, [...ifn([probe(id(nm))]), ...ifn([probe(M.arr([{ hole: true }, id(nm)]))])])
-    }
-  }
-  // siblings inside the same parent as a slot-scoped child (the child's scope must not reach them, and
-  // scopes introduced by later siblings must still resolve correctly)
-  const slotKids = [
-    ['one', [['v', undefined]]],
-    ['aliased', [['v', 'item']]],
-    ['two', [['a', undefined], ['v', 'x']]],
-  ]
-  for (const [kn, scopes] of slotKids) {
-    for (const nm of NAMES) {
-      push(`same-parent:${kn}|sibling-after-slot-scoped-child|${nm}`, [el('c', [], [el('d', [], [probe(id(nm))], { slotScopes: scopes }), probe(id(nm))])])
-      push(`same-parent:${kn}|for-after-slot-scoped-child|${nm}`, [el('c', [], [el('d', [], [text('in')], { slotScopes: scopes }), el('f', [], [probe(M.arr([id(nm), id('item'), id('index')]))], { wxFor: { list: E(id('list')) } })])])
-      push(`same-parent:${kn}|slot-scoped-after-slot-scoped|${nm}`, [el('c', [], [el('d', [], [text('in')], { slotScopes: scopes }), el('e', [], [probe(M.arr([id(nm), id('v')]))], { slotScopes: [['v', undefined]] })])])
-      push(`same-parent:${kn}|self-closing-then-for|${nm}`, [el('c', [], [el('d', [A.plain('p', E(id(nm)))], [], { slotScopes: scopes }), el('f', [], [probe(M.arr([id(nm), id('item')]))], { wxFor: { list: E(id('list2')), item: 'item' } })])])
-    }
-  }
-  // an empty-bodied scoped element followed by a scoped sibling with other names
-  for (const nm of NAMES) {
-    push(`empty-for-then-for|sibling|${nm}`, [block([], { wxFor: { list: E(id('list')), item: 'p' } }), block([probe(M.arr([id(nm), id('q')]))], { wxFor: { list: E(id('list2')), item: 'q' } })])
-  }
-  return out
-}
-
-const SLOTS = () => [{ v: 'V.v', a: 'V.a', zz: 'V.zz' }]
+const { NAMES, forms, introducers, corpus, DATA, SLOTS } = require('./lib/scopegen')
 
 function runShard(info, thorough) {
   const rep = new C.Report()
